@@ -161,7 +161,7 @@ def main():
         # tools/par_try.py tier quick|thorough [ids...]: the unchanged HEAD in a scratch worktree (worker 9),
         # so that it can run while /repo has a seed applied; own thread count, the tier's own wall caps
         tier, ids = rest[0], rest[1:] or ALL
-        w = setup(9)
+        w = setup(int(os.environ.get("PT_WORKER", "9")))
         env = env_of(w)
         env["VERIF_THREADS"] = os.environ.get("PT_THREADS", "8")
         del env["VERIF_WALL_CAP_S"]
